@@ -20,27 +20,27 @@ NC_MUL = ('the digit product itself (RLC_MUL_DIG is abstracted by uninterpreted 
           'squaring, Karatsuba, division and everything built on them (bn_sqr*, bn_mul_karat, bn_div*, bn_mod*): not decidable by the installed back ends (DESIGN 2 P7, P21)')
 PROPERTY_META = {
     'C01': dict(not_covered=NC_MUL + '; the 64-bit digit width for the API layer (verified at WSIZE=8, BN_PRECI=32: same sources, RLC_BN_SIZE=10; '
-                'only the digit loops bn_addn/subn/lsh1_low are additionally proved for all lengths in the shipped configuration); GMP/asm back ends; ALLOC=DYNAMIC',
+                'only the digit loops bn_addn/subn/lsh1_low are additionally proved for all lengths in the shipped configuration, and bn_addn/subn/lsh1_low, dv_zero value contracts at the shipped width in the thorough tier); GMP/asm back ends; ALLOC=DYNAMIC',
                 assumptions=['RLC_MUL_DIG(H, L, A, B) computes the exact double-digit product A*B = H*2^W + L (multiplication units only; they use it through the one range fact PROD <= (B-1)^2, stated as an assumption inside the abstracted macro)',
                              'memcpy(p,p,n) leaves the bytes unchanged (bn_lsh/bn_rsh copy in place through dv_copy)',
                              'util_bits_dig on x86-64 is the lzcnt instruction behind a function pointer: its contract is enforced on the ARCH=none table implementation only']),
     'C02': dict(not_covered='multiplication, squaring, Montgomery/special reduction, inversion, exponentiation, roots, Legendre symbol, conversions, fp_hlvd_low, '
                 'agreement between algorithm variants: number-theoretic identities modulo p outside the back ends (DESIGN 5 C02); other field sizes than the shipped 256 bits',
                 assumptions=['fp_prime_get() is replaced by a contract returning a ghost modulus: odd, > 2, of the configured digit length - every such p, not only primes']),
-    'C05': dict(not_covered='completeness (signer/verifier agreement), soundness of the verification equation, RSA padding, every scheme other than ECDSA verification '
-                '(EC-Schnorr, BLS, BBS, ZSS, CLS, PSS, vBNN, PoK/SoK, ring and homomorphic signatures), agreement with an independent implementation: these need the group/ring arithmetic of C03/C09'),
+    'C05': dict(not_covered='completeness (signer/verifier agreement), soundness of the verification equation (the arithmetic is abstract: only the guard logic of cp_ecdsa_ver, cp_ecss_ver, cp_bls_ver is claimed), RSA padding, '
+                'every other scheme (BBS, ZSS, CLS, PSS, vBNN, PoK/SoK, ring and homomorphic signatures), agreement with an independent implementation: these need the group/ring arithmetic of C03/C09'),
     'C07': dict(not_covered='text conversion (bn_read_str/bn_write_str: needs division), field/extension-field/point/target-group encoders and decoders, compression; '
                 'bn_write_bin is verified at 8-bit digits only (64-bit: time-out), bn_read_bin at both; fp_read_bin/ep_read_bin: guards only (the conversion, decompression and curve-equation arithmetic are abstract)'),
     'C08': dict(not_covered='everything that is not a unit of C01/C02/C07/C09/C15 (curve, pairing, protocol and hash modules, simultaneous/batch functions, recodings other than '
-                'bn_rec_win, md_hmac/kdf/xmd, cp_ecies_dec); ALLOC=DYNAMIC allocation-failure points; pointer arithmetic that leaves the object without a dereference is not flagged'),
-    'C09': dict(not_covered='every modular / number-theoretic function and every recoding except bn_rec_win (bn_rec_slw/naf/tnaf/reg/jsf/glv/sac/frb): '
+                'bn_rec_win, md_xmd); of cp_ecies_dec only the length/guard logic before the MAC comparison; ALLOC=DYNAMIC allocation-failure points; pointer arithmetic that leaves the object without a dereference is not flagged'),
+    'C09': dict(not_covered='every modular / number-theoretic function except bn_mod_2b and every recoding except bn_rec_win (bn_rec_slw/naf/tnaf/reg/jsf/glv/sac/frb; the NAF/regular recodings were tried and exhaust memory): '
                 'their correctness rests on division/multiplication or was not reached'),
     'C14': dict(not_covered='the compression functions (SHA-2 rounds), SHA256FinalBits/Finalize/ResultN glue, BLAKE2s, md_xmd, AES-CBC/PKCS#7; HMAC and KDF/MGF are verified over an abstract hash for bounded lengths only: '
                 'digest and cipher values can only be compared with a second transcription of the standard, which is not a contract on one program; the wrappers were not reached'),
     'C15': dict(not_covered='SHA-256 itself and hash_df values (the hash is abstract: uninterpreted for the generate path, frame-only for (re)seeding); '
                 'the output block framing of rand_gen; termination of bn_rand_mod; agreement with the CAVS vectors is the test-suite\'s job',
                 assumptions=['reseed counter < 2^31 - 600 (the int counter does not overflow)', 'bn_mod_basic: ASSUMED contract |result| < |modulus| (division not verified)']),
-    'C19': dict(not_covered='control transfer after longjmp (handler body, finaliser on the exceptional path, rethrow chains): setjmp returning twice is not modelled by CBMC; '
+    'C19': dict(not_covered='nesting shapes other than the enforced ones (one and three nested blocks without throw, throw in the inner of two blocks with a swallowing resp. re-throwing handler); the second return of setjmp is a scripted model (harness/err_shapes.c), not CBMC semantics; '
                 'per-thread contexts (MULTI build); re-parameterisation equals fresh initialisation'),
     'C20': dict(not_covered='every ladder / regular-recoding algorithm except ep_mul_monty and bn_mxp_monty (fp_exp_monty, ep_mul_lwreg, ed/eb/ep2 forms, gt_exp_sec); the callees of the ladder are trusted constant-time as units; '
                 'memory-address traces and what the compiler does to the source; goto-level branches only (a pure ?: or comparison expression counts as a select)'),
